@@ -82,13 +82,45 @@ func runC12(c *Ctx, r *Run) {
 	} else {
 		name := c.FuncName(enc)
 		r.Analysed(name)
-		var g *guard
+		var g, outer *guard
+		F := enc
+		mVal := ssa.Value(enc.Params[1])
 		for _, gg := range rejectGuards(enc) {
 			if strings.Contains(gg.decider, "Cmp") {
 				gg := gg
-				g = &gg
+				g, outer = &gg, &gg
 			}
 		}
+		if g == nil {
+			// the range test moved into a predicate of the key (`if !pk.plaintextInRange(m) { reject }`): the
+			// comparison is looked for inside it, the plaintext is the parameter bound to m, true must mean "in range"
+			for _, G := range rejectGuards(enc) {
+				G := G
+				call := condCall(G.cond)
+				h := localHelperOf(call)
+				if h == nil || G.iff == nil || G.passBlk != G.iff.Block().Succs[0] {
+					continue
+				}
+				k := -1
+				for i, a := range call.Call.Args {
+					if a == ssa.Value(enc.Params[1]) {
+						k = i
+					}
+				}
+				if k < 0 || k >= len(h.Params) {
+					continue
+				}
+				for _, gg := range rejectGuards(h) {
+					if strings.Contains(gg.decider, "Cmp") {
+						gg := gg
+						g, outer, F, mVal = &gg, &G, h, h.Params[k]
+					}
+				}
+			}
+		}
+		enc0 := enc
+		enc := F
+		_ = enc0
 		if g == nil {
 			r.Fail("RANGE-1", name+"|guard", c.Pos(enc.Pos()), "a range guard on the plaintext exists", "EncWithNonce has no rejecting comparison of the plaintext: out-of-range plaintexts are encrypted and decrypt to a different value")
 		} else {
@@ -103,7 +135,13 @@ func runC12(c *Ctx, r *Run) {
 					cst = k
 				}
 				// polarity: the edge taken when cond is true rejects
-				rejOnTrue := g.passBlk == g.iff.Block().Succs[1]
+				rejOnTrue := false
+				if g.iff != nil {
+					rejOnTrue = g.passBlk == g.iff.Block().Succs[1]
+				} else {
+					// `return gt != 1` of a predicate whose true means "in range": refused when the condition is false
+					rejOnTrue = false
+				}
 				if bo.Op == token.NEQ {
 					rejOnTrue = !rejOnTrue
 				}
@@ -116,7 +154,7 @@ func runC12(c *Ctx, r *Run) {
 				// |m| on the left
 				absOK := false
 				if lc, ok := lhs.(*ssa.Call); ok {
-					if o := calleeObj(lc); o != nil && o.Name() == "Abs" && recvOf(lc) == ssa.Value(enc.Params[1]) {
+					if o := calleeObj(lc); o != nil && o.Name() == "Abs" && recvOf(lc) == mVal {
 						absOK = true
 					}
 				}
@@ -170,8 +208,8 @@ func runC12(c *Ctx, r *Run) {
 			// dominance over uses of m
 			usesOK := true
 			for _, nm := range []string{"ExpI", "Exp", "ModMul"} {
-				for _, call := range callsNamed(enc, nm) {
-					if !(g.passBlk == call.Block() || g.passBlk.Dominates(call.Block())) {
+				for _, call := range callsNamed(enc0, nm) {
+					if outer.passBlk == nil || !(outer.passBlk == call.Block() || outer.passBlk.Dominates(call.Block())) {
 						usesOK = false
 					}
 				}
@@ -179,6 +217,7 @@ func runC12(c *Ctx, r *Run) {
 			r.Check("RANGE-1", name+"|guard-before-use", c.Pos(g.pos), usesOK, "every exponentiation happens after the range guard passed", "an exponentiation is reachable without passing the range guard")
 		}
 		// SYM-1: ExpI with the signed plaintext
+		enc = enc0
 		symOK := false
 		for _, call := range callsNamed(enc, "ExpI") {
 			a := argsOf(call)
